@@ -66,7 +66,7 @@ def obligations(tier):
     obls += [
         CH("dictionary_keys_and_emptiness", H, "dict_prop", t, mode="E1s", functions=FP[7:10], bounds="12 keys x 2 versions x empty/non-empty x Dictionary/Hashes/Extensions"),
         CH("binary_property", H, "binary_prop", t, mode="E1s", functions=FP[10:11], bounds="12 base64 / non-base64 literals"),
-        CH("reference_property", H, "ref_prop", t, mode="E1s", functions=FP[12:13],            bounds="12 type names (two registered for 2.1 only) x 7 white/black-list configurations x allow_custom x both spec versions"),
+        CH("reference_property", H, "ref_prop", t, mode="E1s", functions=FP[12:13],            bounds="15 type names (two registered for 2.1 only, three registered as extension / marking kinds only) x 7 white/black-list configurations x allow_custom x both spec versions"),
         CH("reference_text_malformed", H, "ref_text", t, mode="E1s", functions=FP[12:13] + ["stix2.properties._validate_id", "stix2.utils.get_type_from_id"],
            bounds="4 type names x 7 configurations x 9 insertions between type and UUID (extra '--' segments, spaces) x 5 tails x both versions x allow_custom: never accepted"),
     ] + [
@@ -93,6 +93,8 @@ def obligations(tier):
         CH("strict_refuses_custom_embedded", H4, "prop_embedded", t, functions=F4[1:2], stubs=[FMT], bounds="instance with symbolic flag, or dict with/without a custom property"),
         CH("strict_refuses_custom_in_extensions", H4, "prop_extensions", t * 2, functions=F4[2:3], stubs=[FMT],
            bounds="two registered extensions each clean/custom and each given as dict or ready-made instance, unregistered extension, extension-definition; both orders"),
+        CH("strict_refuses_injected_custom_content", H4, "flag_iff_strict_refuses", t * 2, mode="E1s", functions=["stix2.base._STIXBase.__init__"],
+           bounds="none, each single and each ordered pair of 34 injection sites on 7 base objects, with and without a legal unregistered property-extension next to them"),
         CH("strict_refuses_custom_hash_names", H4, "prop_hashes", t, mode="E1s", functions=F4[3:], bounds="12 algorithm names, singles and pairs"),
     ]
     for p in range(8):
